@@ -201,7 +201,16 @@ theorem fileReadExtBlockN_noOob (c : Cfg) (h : FileH) (eb : Nat) (s : St) :
     · exact Post.pure _ _ _ _ trivial
     · split <;> exact Post.pure _ _ _ _ trivial
 
-/-- intermediate fact of `adfFileSeekExt_`: either the block index is in the header's range, or an extension buffer is there -/
+/-- between calls a handle may hold no block at all (`curDataPtr = 0`: a seek or read failed, the next access re-seeks);
+    otherwise its extension cursor is usable -/
+def ExtW (c : Cfg) (h : FileH) : Prop := h.curDataPtr = 0 ∨ ExtOK c h
+
+/-- what the seek functions guarantee: the weak invariant always, the strong one on success -/
+def ExtPost (c : Cfg) (h : FileH) (r : RC × FileH) (_ : St) : Prop :=
+  ExtW c r.2 ∧ (r.1 = rcOK → ExtOK c r.2) ∧ r.2.vol = h.vol ∧ r.2.modeWrite = h.modeWrite
+
+/-- intermediate fact of `adfFileSeekExt_` after its extension-block part succeeded: either the block index is in the
+    header's range, or an extension buffer is there -/
 def ExtMid (h0 h : FileH) : Prop :=
   h.vol = h0.vol ∧ h.modeWrite = h0.modeWrite ∧ (h.nDataBlock < 72 ∨ (h.curExt.isSome = true ∧ h.posInExtBlk ≤ 72))
 
@@ -220,15 +229,17 @@ theorem ExtMid.extOK_succ {c : Cfg} {h0 h : FileH} (hm : ExtMid h0 h) (data : By
   · exact hs
 
 theorem fileSeekExtAt_extOK (c : Cfg) (h : FileH) (p : Nat) (s : St) :
-    Post NoOob c (fileSeekExtAt h p) s (fun r _ => ExtOK c r.2 ∧ r.2.vol = h.vol ∧ r.2.modeWrite = h.modeWrite) := by
+    Post NoOob c (fileSeekExtAt h p) s (ExtPost c h) := by
   unfold fileSeekExtAt
   apply Post.bind; apply Post.getVolCfg
   simp only
   apply Post.bind
-  refine Post.mono _ _ _ (fun b _ => ExtMid h b.2) _ ?_ ?_
+  -- after the extension part: failure leaves no block; success leaves a usable cursor
+  refine Post.mono _ _ _ (fun b _ => b.2.vol = h.vol ∧ b.2.modeWrite = h.modeWrite ∧
+      (b.1 ≠ rcOK → b.2.curDataPtr = 0) ∧ (b.1 = rcOK → ExtMid h b.2)) _ ?_ ?_
   · rcases pos2DataBlock_cases p (c.vol h.vol).datablockSize with ⟨hn, hlt⟩ | ⟨hsome, hle⟩
     · rw [hn]
-      exact Post.pure _ _ _ _ ⟨rfl, rfl, Or.inl hlt⟩
+      exact Post.pure _ _ _ _ ⟨rfl, rfl, fun h => absurd rfl h, fun _ => ⟨rfl, rfl, Or.inl hlt⟩⟩
     · cases hext : (pos2DataBlock p (c.vol h.vol).datablockSize).extBlock with
       | none => rw [hext] at hsome; simp at hsome
       | some eb =>
@@ -237,57 +248,67 @@ theorem fileSeekExtAt_extOK (c : Cfg) (h : FileH) (p : Nat) (s : St) :
         refine Post.mono _ _ _ _ _ (fileReadExtBlockN_noOob c _ _ s) ?_
         rintro ⟨rc, last⟩ s' _
         simp only
-        -- after the `match last` the handle always has an extension buffer
-        have tail : ∀ (h2 : FileH), h2.curExt.isSome = true → h2.vol = h.vol → h2.modeWrite = h.modeWrite → h2.posInExtBlk ≤ 71 →
-            Post NoOob c
-              (if rc ≠ rcOK then pure (rcError, { h2 with curDataPtr := 0 })
-               else match h2.curExt with
-                 | none => fault (.oob "adfFileSeekExt.currentExt")
-                 | some ce => pure (rcOK, { h2 with curDataPtr := ce.w (F_table + 71 - h2.posInExtBlk), posInExtBlk := h2.posInExtBlk + 1 }))
-              s' (fun b _ => ExtMid h b.2) := by
-          intro h2 hs2 hv2 hm2 hp2
-          split
-          · exact Post.pure _ _ _ _ ⟨hv2, hm2, Or.inr ⟨hs2, by simp only []; omega⟩⟩
-          · cases hce : h2.curExt with
-            | none => rw [hce] at hs2; simp at hs2
-            | some ce =>
-              simp only
-              exact Post.pure _ _ _ _ ⟨hv2, hm2, Or.inr ⟨by simp only [hce]; rfl, by simp only []; omega⟩⟩
-        cases last with
-        | some b => exact tail _ rfl rfl rfl hle
-        | none =>
-          simp only
-          by_cases hn : h.curExt.isNone = true
-          · rw [if_pos hn]; exact tail _ rfl rfl rfl hle
-          · rw [if_neg hn]
-            refine tail _ ?_ rfl rfl hle
-            cases hce : h.curExt with
-            | none => rw [hce] at hn; simp at hn
-            | some x => rfl
-  · rintro ⟨rc, h1⟩ s1 hm
-    simp only at hm ⊢
-    split
-    · exact Post.pure _ _ _ _ ⟨hm.extOK, hm.1, hm.2.1⟩
-    · split
-      · exact Post.pure _ _ _ _ ⟨hm.extOK, hm.1, hm.2.1⟩
+        by_cases hrc : rc ≠ rcOK
+        · rw [if_pos hrc]
+          apply Post.pure
+          refine ⟨?_, ?_, fun _ => rfl, fun h => absurd h rcError_ne_ok⟩
+          · split <;> (try split) <;> rfl
+          · split <;> (try split) <;> rfl
+        · rw [if_neg hrc]
+          cases last with
+          | some b =>
+            dsimp only
+            exact Post.pure _ _ _ _ ⟨rfl, rfl, fun h => absurd rfl h,
+              fun _ => ⟨rfl, rfl, Or.inr ⟨rfl, by simp only []; omega⟩⟩⟩
+          | none =>
+            dsimp only
+            by_cases hn : h.curExt.isNone = true
+            · rw [if_pos hn]
+              dsimp only
+              exact Post.pure _ _ _ _ ⟨rfl, rfl, fun h => absurd rfl h,
+                fun _ => ⟨rfl, rfl, Or.inr ⟨rfl, by simp only []; omega⟩⟩⟩
+            · rw [if_neg hn]
+              cases hce : h.curExt with
+              | none => rw [hce] at hn; simp at hn
+              | some x =>
+                dsimp only
+                exact Post.pure _ _ _ _ ⟨rfl, rfl, fun h => absurd rfl h,
+                  fun _ => ⟨rfl, rfl, Or.inr ⟨rfl, by simp only []; omega⟩⟩⟩
+  · rintro ⟨rc, h1⟩ s1 ⟨hv, hmw, hfail, hok⟩
+    simp only at hv hmw hfail hok ⊢
+    by_cases hrc : rc ≠ rcOK
+    · rw [if_pos hrc]
+      exact Post.pure _ _ _ _ ⟨Or.inl (hfail hrc), fun h => absurd h hrc, hv, hmw⟩
+    · rw [if_neg hrc]
+      have hm := hok (by simpa using hrc)
+      split
+      · exact Post.pure _ _ _ _ ⟨Or.inr hm.extOK, fun _ => hm.extOK, hv, hmw⟩
       · apply Post.bind; apply readDataBlock_any
         rintro ⟨rc2, data⟩ s2
         simp only
         split
-        · apply Post.pure
-          have hm' : ExtMid h { h1 with curDataPtr := 0 } := hm
-          exact ⟨hm'.extOK, hm.1, hm.2.1⟩
-        · exact Post.pure _ _ _ _ ⟨hm.extOK_succ data, hm.1, hm.2.1⟩
+        · exact Post.pure _ _ _ _ ⟨Or.inl rfl, fun h => by rename_i hne; exact absurd h hne, hv, hmw⟩
+        · exact Post.pure _ _ _ _ ⟨Or.inr (hm.extOK_succ data), fun _ => hm.extOK_succ data, hv, hmw⟩
 
-def ExtPost (c : Cfg) (h : FileH) (r : RC × FileH) (_ : St) : Prop :=
-  ExtOK c r.2 ∧ r.2.vol = h.vol ∧ r.2.modeWrite = h.modeWrite
+theorem ExtPost.of_strong {c : Cfg} {h : FileH} {r : RC × FileH} {s : St}
+    (hx : ExtOK c r.2) (hv : r.2.vol = h.vol) (hm : r.2.modeWrite = h.modeWrite) : ExtPost c h r s :=
+  ⟨Or.inr hx, fun _ => hx, hv, hm⟩
+
+theorem ExtPost.trans' {c : Cfg} {h h1 : FileH} {r : RC × FileH} {s : St} (hp : ExtPost c h1 r s)
+    (hv : h1.vol = h.vol) (hm : h1.modeWrite = h.modeWrite) : ExtPost c h r s :=
+  ⟨hp.1, hp.2.1, hp.2.2.1.trans hv, hp.2.2.2.trans hm⟩
+
+theorem fileSeekStart_post (c : Cfg) (h : FileH) (s : St) : Post NoOob c (fileSeekStart h) s (ExtPost c h) := by
+  refine Post.mono _ _ _ _ _ (fileSeekStart_extOK c h s) ?_
+  rintro r s' ⟨hx, hv, hm⟩
+  exact ExtPost.of_strong hx hv hm
 
 theorem fileSeekOFSLoop_extOK (c : Cfg) (dbs p : Nat) :
     ∀ (fuel : Nat) (h : FileH) (offset : Nat) (s : St), ExtOK c h →
     Post NoOob c (fileSeekOFSLoop dbs p fuel h offset) s (ExtPost c h) := by
   intro fuel
   induction fuel with
-  | zero => intro h off s hx; unfold fileSeekOFSLoop; exact Post.pure _ _ _ _ ⟨hx, rfl, rfl⟩
+  | zero => intro h off s hx; unfold fileSeekOFSLoop; exact Post.pure _ _ _ _ (ExtPost.of_strong hx rfl rfl)
   | succ fuel ih =>
     intro h off s hx
     unfold fileSeekOFSLoop
@@ -300,23 +321,23 @@ theorem fileSeekOFSLoop_extOK (c : Cfg) (dbs p : Nat) :
         rintro ⟨rc, h'⟩ s' ⟨hx', hv, hm⟩
         simp only at hx' hv hm ⊢
         split
-        · refine Post.pure _ _ _ _ ⟨?_, hv, hm⟩
+        · refine Post.pure _ _ _ _ (ExtPost.of_strong ?_ hv hm)
           intro ho hgt; exact hx' ho hgt
         · have hx2 : ExtOK c { h' with posInDataBlk := 0 } := hx'
           refine Post.mono _ _ _ _ _ (ih _ _ s' hx2) ?_
-          rintro r s'' ⟨a, b, d⟩
-          exact ⟨a, b.trans hv, d.trans hm⟩
+          rintro r s'' hp
+          exact hp.trans' hv hm
       · have hx1 : ExtOK c { h with posInDataBlk := h.posInDataBlk + min (p - off) (dbs - h.posInDataBlk) } := hx
         refine Post.mono _ _ _ _ _ (ih _ _ s hx1) ?_
-        rintro r s'' ⟨a, b, d⟩
-        exact ⟨a, b, d⟩
-    · exact Post.pure _ _ _ _ ⟨hx, rfl, rfl⟩
+        rintro r s'' hp
+        exact hp.trans' rfl rfl
+    · exact Post.pure _ _ _ _ (ExtPost.of_strong hx rfl rfl)
 
 theorem seek_family_extOK (c : Cfg) : ∀ fuel : Nat,
-    (∀ h pos s, h.modeWrite = false → ExtOK c h → Post NoOob c (fileSeek fuel h pos) s (ExtPost c h)) ∧
-    (∀ h s, h.modeWrite = false → ExtOK c h → Post NoOob c (fileSeekEOF fuel h) s (ExtPost c h)) ∧
-    (∀ h pos s, h.modeWrite = false → ExtOK c h → Post NoOob c (fileSeekExt fuel h pos) s (ExtPost c h)) ∧
-    (∀ h pos s, h.modeWrite = false → ExtOK c h → Post NoOob c (fileSeekOFS fuel h pos) s (ExtPost c h)) := by
+    (∀ h pos s, h.modeWrite = false → ExtW c h → Post NoOob c (fileSeek fuel h pos) s (ExtPost c h)) ∧
+    (∀ h s, h.modeWrite = false → ExtW c h → Post NoOob c (fileSeekEOF fuel h) s (ExtPost c h)) ∧
+    (∀ h pos s, h.modeWrite = false → ExtW c h → Post NoOob c (fileSeekExt fuel h pos) s (ExtPost c h)) ∧
+    (∀ h pos s, h.modeWrite = false → Post NoOob c (fileSeekOFS fuel h pos) s (ExtPost c h)) := by
   intro fuel
   induction fuel with
   | zero =>
@@ -324,7 +345,7 @@ theorem seek_family_extOK (c : Cfg) : ∀ fuel : Nat,
     · intro h pos s _ _; unfold fileSeek; exact Post.fault _ _ _ _ (NoOob_fuel _)
     · intro h s _ _; unfold fileSeekEOF; exact Post.fault _ _ _ _ (NoOob_fuel _)
     · intro h pos s _ _; unfold fileSeekExt; exact Post.fault _ _ _ _ (NoOob_fuel _)
-    · intro h pos s _ _; unfold fileSeekOFS; exact Post.fault _ _ _ _ (NoOob_fuel _)
+    · intro h pos s _; unfold fileSeekOFS; exact Post.fault _ _ _ _ (NoOob_fuel _)
   | succ fuel ih =>
     obtain ⟨ihSeek, ihEOF, ihExt, ihOFS⟩ := ih
     refine ⟨?_, ?_, ?_, ?_⟩
@@ -333,54 +354,60 @@ theorem seek_family_extOK (c : Cfg) : ∀ fuel : Nat,
       apply Post.bind; apply Post.getVolCfg
       simp only
       split
-      · exact Post.pure _ _ _ _ ⟨hx, rfl, rfl⟩
+      · rename_i h1
+        have hs : ExtOK c h := by rcases hx with h0 | hs; exact absurd h0 h1.2; exact hs
+        exact Post.pure _ _ _ _ (ExtPost.of_strong hs rfl rfl)
       · generalize (if h.nDataBlock > 0 then h.nDataBlock - 1 else 0) = curDb
         by_cases h2 : h.curDataPtr ≠ 0 ∧ curDb = pos / (c.vol h.vol).datablockSize
         · rw [if_pos h2]
-          exact Post.pure _ _ _ _ ⟨hx, rfl, rfl⟩
+          have hs : ExtOK c h := by rcases hx with h0 | hs; exact absurd h0 h2.1; exact hs
+          exact Post.pure _ _ _ _ (ExtPost.of_strong (fun a b => hs a b) rfl rfl)
         · rw [if_neg h2]
           apply Post.bind
           have hnw : ¬ (h.modeWrite = true ∧ h.changed = true) := by simp [hw]
           rw [if_neg hnw]
           apply Post.pure
           split
-          · exact fileSeekStart_extOK c h s
+          · exact fileSeekStart_post c h s
           · apply Post.bind
             refine Post.mono _ _ _ _ _ (ihExt h pos s hw hx) ?_
-            rintro ⟨st, h1⟩ s1 ⟨hx1, hv1, hm1⟩
-            simp only at hx1 hv1 hm1 ⊢
+            rintro ⟨st, h1⟩ s1 hp
+            obtain ⟨hw1x, hok1, hv1, hm1⟩ := hp
+            simp only at hw1x hok1 hv1 hm1 ⊢
             split
             · have hw1 : h1.modeWrite = false := by rw [hm1]; exact hw
-              refine Post.mono _ _ _ _ _ (ihOFS h1 pos s1 hw1 hx1) ?_
-              rintro r s2 ⟨a, b, d⟩
-              exact ⟨a, b.trans hv1, d.trans hm1⟩
-            · exact Post.pure _ _ _ _ ⟨hx1, hv1, hm1⟩
+              refine Post.mono _ _ _ _ _ (ihOFS h1 pos s1 hw1) ?_
+              rintro r s2 hp2
+              exact hp2.trans' hv1 hm1
+            · exact Post.pure _ _ _ _ ⟨hw1x, hok1, hv1, hm1⟩
     · intro h s hw hx
       unfold fileSeekEOF
       split
-      · exact fileSeekStart_extOK c h s
+      · exact fileSeekStart_post c h s
       · apply Post.bind; apply Post.getVolCfg
         simp only
         apply Post.bind
         refine Post.mono _ _ _ _ _ (ihSeek h _ s hw hx) ?_
-        rintro ⟨rc, h1⟩ s1 ⟨hx1, hv1, hm1⟩
-        simp only at hx1 hv1 hm1 ⊢
+        rintro ⟨rc, h1⟩ s1 ⟨hwx, hok, hv1, hm1⟩
+        simp only at hwx hok hv1 hm1 ⊢
         split
-        · exact Post.pure _ _ _ _ ⟨hx1, hv1, hm1⟩
-        · refine Post.pure _ _ _ _ ⟨?_, hv1, hm1⟩
-          intro ho hgt; exact hx1 ho hgt
+        · exact Post.pure _ _ _ _ ⟨hwx, hok, hv1, hm1⟩
+        · rename_i hrc
+          have hs := hok (by simpa using hrc)
+          refine Post.pure _ _ _ _ (ExtPost.of_strong ?_ hv1 hm1)
+          intro ho hgt; exact hs ho hgt
     · intro h pos s hw hx
       unfold fileSeekExt
       simp only
       split
-      · have hx1 : ExtOK c { h with pos := min pos h.byteSize } := hx
+      · have hx1 : ExtW c { h with pos := min pos h.byteSize } := hx
         refine Post.mono _ _ _ _ _ (ihEOF _ s hw hx1) ?_
-        rintro r s' ⟨a, b, d⟩
-        exact ⟨a, b, d⟩
+        rintro r s' hp
+        exact hp.trans' rfl rfl
       · refine Post.mono _ _ _ _ _ (fileSeekExtAt_extOK c _ _ s) ?_
-        rintro r s' ⟨a, b, d⟩
-        exact ⟨a, b, d⟩
-    · intro h pos s hw hx
+        rintro r s' hp
+        exact hp.trans' rfl rfl
+    · intro h pos s hw
       unfold fileSeekOFS
       apply Post.bind; apply Post.getVolCfg
       apply Post.bind
@@ -388,17 +415,17 @@ theorem seek_family_extOK (c : Cfg) : ∀ fuel : Nat,
       rintro ⟨rc, h1⟩ s1 ⟨hx1, hv1, hm1⟩
       simp only at hx1 hv1 hm1 ⊢
       split
-      · exact Post.pure _ _ _ _ ⟨hx1, hv1, hm1⟩
+      · exact Post.pure _ _ _ _ (ExtPost.of_strong hx1 hv1 hm1)
       · have hw1 : h1.modeWrite = false := by rw [hm1]; exact hw
         split
-        · have hx2 : ExtOK c { h1 with pos := min pos h1.byteSize } := hx1
+        · have hx2 : ExtW c { h1 with pos := min pos h1.byteSize } := Or.inr hx1
           refine Post.mono _ _ _ _ _ (ihEOF _ s1 hw1 hx2) ?_
-          rintro r s2 ⟨a, b, d⟩
-          exact ⟨a, b.trans hv1, d.trans hm1⟩
+          rintro r s2 hp
+          exact hp.trans' hv1 hm1
         · have hx2 : ExtOK c { h1 with pos := min pos h1.byteSize } := hx1
           refine Post.mono _ _ _ _ _ (fileSeekOFSLoop_extOK c _ _ _ _ _ s1 hx2) ?_
-          rintro r s2 ⟨a, b, d⟩
-          exact ⟨a, b.trans hv1, d.trans hm1⟩
+          rintro r s2 hp
+          exact hp.trans' hv1 hm1
 
 theorem fileReadLoop_extOK (c : Cfg) (dbs doff : Nat) :
     ∀ (fuel : Nat) (h : FileH) (remaining : Nat) (acc : Bytes) (s : St), h.modeWrite = false → ExtOK c h →
@@ -442,29 +469,36 @@ theorem fileReadLoop_extOK (c : Cfg) (dbs doff : Nat) :
           exact ⟨a, b.trans hv1, d.trans hm1⟩
 
 /-- **`adfFileRead` never reaches for a missing extension buffer or a slot outside it**: for every image content and
-    every fault schedule, on a read-mode handle whose extension cursor is usable (true of a fresh handle), the model's
-    out-of-bounds faults of the file read path cannot fire, and the cursor stays usable -/
-theorem fileRead_never_oob (c : Cfg) (h : FileH) (n : Nat) (s : St) (hw : h.modeWrite = false) (hx : ExtOK c h) :
-    Post NoOob c (fileRead h n) s (fun r _ => ExtOK c r.2 ∧ r.2.vol = h.vol ∧ r.2.modeWrite = h.modeWrite) := by
+    every fault schedule, on a read-mode handle that holds no block or whose extension cursor is usable (true of a fresh
+    handle), the model's out-of-bounds faults of the file read path cannot fire, and the same holds afterwards -/
+theorem fileRead_never_oob (c : Cfg) (h : FileH) (n : Nat) (s : St) (hw : h.modeWrite = false) (hx : ExtW c h) :
+    Post NoOob c (fileRead h n) s (fun r _ => ExtW c r.2 ∧ r.2.vol = h.vol ∧ r.2.modeWrite = h.modeWrite) := by
   unfold fileRead
   split
   · exact Post.pure _ _ _ _ ⟨hx, rfl, rfl⟩
   · apply Post.bind; apply Post.getVolCfg
     apply Post.bind
-    refine Post.mono _ _ _ (fun b _ => ExtOK c b.2 ∧ b.2.vol = h.vol ∧ b.2.modeWrite = h.modeWrite) _ ?_ ?_
+    refine Post.mono _ _ _ (fun b _ => ExtW c b.2 ∧ (b.1 = true → ExtOK c b.2) ∧ b.2.vol = h.vol ∧ b.2.modeWrite = h.modeWrite) _ ?_ ?_
     · split
       · apply Post.bind
         unfold seek
         refine Post.mono _ _ _ _ _ ((seek_family_extOK c SEEK_FUEL).1 h h.pos s hw hx) ?_
-        rintro ⟨rc, h1⟩ s1 ⟨a, b, d⟩
-        exact Post.pure _ _ _ _ ⟨a, b, d⟩
-      · exact Post.pure _ _ _ _ ⟨hx, rfl, rfl⟩
-    · rintro ⟨ok, h1⟩ s1 ⟨hx1, hv1, hm1⟩
-      simp only at hx1 hv1 hm1 ⊢
-      split
-      · exact Post.pure _ _ _ _ ⟨hx1, hv1, hm1⟩
-      · have hw1 : h1.modeWrite = false := by rw [hm1]; exact hw
-        refine Post.mono _ _ _ _ _ (fileReadLoop_extOK c _ _ _ h1 _ [] s1 hw1 hx1) ?_
+        rintro ⟨rc, h1⟩ s1 ⟨a, b, d, e⟩
+        exact Post.pure _ _ _ _ ⟨a, fun hr => b (by simpa using hr), d, e⟩
+      · rename_i hne
+        have hs : ExtOK c h := by rcases hx with h0 | hs; exact absurd h0 hne; exact hs
+        exact Post.pure _ _ _ _ ⟨hx, fun _ => hs, rfl, rfl⟩
+    · rintro ⟨ok, h1⟩ s1 ⟨hwx, hok, hv1, hm1⟩
+      simp only at hwx hok hv1 hm1 ⊢
+      cases ok with
+      | false =>
+        simp only [Bool.not_false, if_true]
+        exact Post.pure _ _ _ _ ⟨hwx, hv1, hm1⟩
+      | true =>
+        simp only [Bool.not_true, Bool.false_eq_true, if_false]
+        have hw1 : h1.modeWrite = false := by rw [hm1]; exact hw
+        refine Post.mono _ _ _ _ _ (fileReadLoop_extOK c _ _ _ h1 _ [] s1 hw1 (hok rfl)) ?_
         rintro r s2 ⟨a, b, d⟩
-        exact ⟨a, b.trans hv1, d.trans hm1⟩
+        exact ⟨Or.inr a, b.trans hv1, d.trans hm1⟩
+
 end Adf
